@@ -5,7 +5,7 @@
 (* custom actions, virtual keys, idle timers), is_idle and                 *)
 (* can_block_update_idle_waiting.  Same functional style as Layout.tla.    *)
 (***************************************************************************)
-EXTENDS Layout, Overrides, KeyRepeat, DynMacro
+EXTENDS Layout, Overrides, KeyRepeat, DynMacro, SeqMode
 
 \* OS events: <<kind, arg>>  kind \in {"d","u","bd","bu","U","sc","mv","code"}
 Ev(k, a) == <<k, a>>
